@@ -512,7 +512,7 @@ func TestAPIRoundTrip(t *testing.T) {
 		Rule: "baggage built with NewMemberRaw / NewKeyProperty / NewKeyValuePropertyRaw: token keys of 1..40 characters over all token characters, values of valid UTF-8 over a delimiter-heavy alphabet " +
 			"(,;=%\"\\ blanks at both ends, multi-byte and non-BMP runes), 0..4 properties (key only, empty value, value, repeated property keys), repeated member keys, and sizes aimed at 180±2 members, 4096±2 bytes per member, 8192±2 bytes in total; " +
 			"non-trivial = some value or property value needs escaping, or a member has properties; distinct = distinct case encodings",
-		Quick: 12000, Thorough: 150000,
+		Quick: 20000, Thorough: 200000,
 		Gen: genA, Run: runA,
 	})
 }
